@@ -491,10 +491,16 @@ def _njobs(case, ctx):
             from sktime.transformations.panel.dictionary_based import PAA
             from sktime.transformations.panel.summarize import DerivativeSlopeTransformer
             return FeatureUnion([("a", PAA(num_intervals=3)), ("b", DerivativeSlopeTransformer()), ("c", PAA(num_intervals=5))], n_jobs=nj), None
+        every = 40
+        if name == "param-extractor":
+            # the row tasks fit a forecaster and read its fitted parameters: delays at exactly these two steps (between them a task that shared
+            # anything with another row task would see that task's fit)
+            from sktime.forecasting.exp_smoothing import ExponentialSmoothing as ES_
+            targets, every = [(ES_, "fit"), (ES_, "get_fitted_params")], 1
         for nj in (None, 1, 2, 4):
             rng0 = np.random.default_rng([case["dseed"], 77])
             est, yy = mk(nj)
-            with Delays(targets, case["delay_seed"] + (nj or 0), every=40) as d, parallel_backend("threading"):
+            with Delays(targets, case["delay_seed"] + (nj or 0), every=every) as d, parallel_backend("threading"):
                 ok, _ = ctx.call("njobs:fit-exception:" + name, est.fit, Xtr, yy) if yy is not None else ctx.call("njobs:fit-exception:" + name, est.fit, Xtr)
                 if not ok:
                     return
